@@ -211,6 +211,52 @@ func recordWriters(c *Ctx) []recWriter {
 			return r.Write, t
 		}},
 	}
+	// records whose ENCODING is exactly 4096 or 8192 bytes, newline included (a writer that assembles the line in
+	// a fixed-size buffer and flushes it when full sees its last byte complete a buffer)
+	exact := func(name string, mk func(pad int) (func(io.Writer) error, []byte)) recWriter {
+		return recWriter{name + "-exact", func() (func(io.Writer) error, []byte) {
+			target := []int{4096, 8192}[c.rng.Intn(2)]
+			_, t0 := mk(100)
+			w, t := mk(100 + target - len(t0))
+			if len(t) != target {
+				panic(fmt.Sprintf("harness: %s-exact record has %d bytes, want %d", name, len(t), target))
+			}
+			return w, t
+		}}
+	}
+	pad := func(n int) string { return strings.Repeat("n", n) }
+	ws = append(ws,
+		exact("fasta", func(p int) (func(io.Writer) error, []byte) {
+			r := &fasta.Fasta{Name: []byte(pad(p)), Sequence: []byte("ACGT")}
+			t, _ := r.MarshalText()
+			return r.Write, t
+		}),
+		exact("fastq", func(p int) (func(io.Writer) error, []byte) {
+			r := &fastq.Fastq{Name: []byte(pad(p)), Sequence: []byte("ACGT"), Quals: []byte("IIII")}
+			t, _ := r.MarshalText()
+			return r.Write, t
+		}),
+		exact("sam", func(p int) (func(io.Writer) error, []byte) {
+			r := plainSam(pad(p))
+			t, _ := r.MarshalText()
+			return r.Write, t
+		}),
+		exact("bed", func(p int) (func(io.Writer) error, []byte) {
+			r := &bed.BED{N: 4, Chrom: "chr1", ChromStart: 0, ChromEnd: 1, Name: pad(p)}
+			t, _ := r.MarshalText()
+			return r.Write, t
+		}),
+		exact("bed12", func(p int) (func(io.Writer) error, []byte) {
+			r := &bed.BED{N: 12, Chrom: pad(p), ChromStart: 0, ChromEnd: 9, Name: "n", Strand: "+", BlockCount: 2, BlockSizes: []int{1, 2}, BlockStarts: []int{0, 5}}
+			t, _ := r.MarshalText()
+			return r.Write, t
+		}),
+		exact("newick", func(p int) (func(io.Writer) error, []byte) {
+			r := tree1(pad(p), tree1("a"), tree1("b"))
+			t, _ := r.MarshalText()
+			return r.Write, t
+		}),
+	)
 	return ws
 }
 
@@ -355,6 +401,9 @@ func genC07(c *Ctx) {
 		}
 		if strings.HasSuffix(w.name, "-longname") {
 			reps = 3
+		}
+		if strings.HasSuffix(w.name, "-exact") {
+			reps = 2
 		}
 		for i := 0; i < reps; i++ {
 			// a second, different record and its text, fixed BEFORE any write fails: after a failed Write the next
